@@ -218,6 +218,7 @@ let pgraph (bt : built) =
   pr ",\"node_map\":"; plist (fun i -> pi (int_of_nat i)) bt.b_map;
   pr ",\"recs\":"; plist (fun (s, d) -> pr "["; pkey s; pr ","; pkey d; pr "]") bt.b_recs;
   pr ",\"synth\":"; plist pkey bt.b_synth;
+  pr ",\"pop\":"; plist (fun i -> pi (int_of_nat i)) bt.b_pop;
   pr "}"
 
 (* ---------- commands ---------- *)
@@ -290,6 +291,24 @@ let handle (line : string) : unit =
      pr "{\"results\":"; plist pres (fsstore_case (L.map op_ (field "ops" f)));
      pr ",\"ext_pickle\":"; plist (fun c -> pi (int_of_nat c)) (fsstore_ext true);
      pr ",\"ext_json\":"; plist (fun c -> pi (int_of_nat c)) (fsstore_ext false); pr "}"
+   | S (A "validate" :: f) ->
+     let nodes = L.map node_ (field "nodes" f) in
+     let flag_ = function
+       | S l -> let b i = bool_ (L.nth l i) in
+         { Validate.df_not_class = b 0; df_no_base = b 1; df_no_process = b 2; df_no_annotations = b 3;
+           df_unannotated_param = b 4; df_generic = b 5; df_no_rec_protocol = b 6; df_no_additional_data = b 7 }
+       | _ -> failwith "flags" in
+     let r = validate_case (L.map fst nodes) (L.map flag_ (field "flags" f)) in
+     pr "{\"error\":";
+     (match r with
+      | None -> pr "null"
+      | Some e -> pr "\""; pr (match e with
+          | Validate.EIncorrectTypeClass -> "IncorrectTypeClass" | Validate.EIncorrectBaseClass -> "IncorrectBaseClass"
+          | Validate.ERunMethodExpected -> "RunMethodExpectedError" | Validate.EUndefinedAnnotation -> "UndefinedAnnotation"
+          | Validate.EUndefinedParamAnnotation -> "UndefinedParamAnnotation" | Validate.ENonRedefinedGeneric -> "NonRedefinedGenericTypeError"
+          | Validate.EIncorrectRecurrentMixin -> "IncorrectRecurrentMixinClass"
+          | Validate.EIncorrectParamsRecurrentNode -> "IncorrectParamsRecurrentNode"); pr "\"");
+     pr "}"
    | S (A "build" :: f) ->
      let nodes = L.map node_ (field "nodes" f) in
      pgraph (built_of (L.map fst nodes))
